@@ -166,3 +166,12 @@ Lemma ex_roundtrip_single :
   exists s w, update_from_text (list event) ex_rec 40 (schema_of ex_view) (write_to_string gt_std ex_opts_single ex_view) []
               = UOk s w /\ snd s = [] /\ rev w = events_of gt_std [] ex_view.
 Proof. split; [repeat split; try reflexivity; right; reflexivity|]. eexists. eexists. vm_compute. repeat split. Qed.
+
+Lemma ex_codec :
+  encode_int (mk_ity true W8) (-128) 2 true = Ok [45; 48; 98; 49; 48; 48; 48; 48; 48; 48; 48] /\
+  decode_int (mk_ity true W8) [45; 48; 98; 49; 48; 48; 48; 48; 48; 48; 48] = Ok (-128) /\
+  decode_int (mk_ity true W8) [49; 50; 56] = Reject /\ numeral_value true [49; 50; 56] = Some 128 /\
+  decode_int (mk_ity false W8) [45; 49] = Reject /\
+  encode_int (mk_ity false W64) 18446744073709551615 10 true =
+    Ok [49;56;95;52;52;54;95;55;52;52;95;48;55;51;95;55;48;57;95;53;53;49;95;54;49;53].
+Proof. vm_compute. repeat split. Qed.
